@@ -125,6 +125,12 @@ def replay_history(case, mods):
                 obj.trim(end_only=op['endOnly'])
             elif kind == 'indent':
                 obj.indent(make_indentizer(text_gen, op['cfg']))
+            elif kind == 'indentbare':
+                if obj.indent() is not obj:
+                    return [('indent returns self', True, False)]
+            elif kind == 'setind':
+                if obj.set_indentor(make_indentizer(text_gen, op['cfg'])) is not obj:
+                    return [('set_indentor returns self', True, False)]
             elif kind == 'render':
                 before = copy.deepcopy(obj.lines)
                 str(obj)
@@ -251,7 +257,8 @@ def record_text_trace(rng, tid, mods, flavour):
     obj = text_gen.TextBlock(to_py(c, text_gen), header=to_py(h, text_gen))
     events.append({'op': 'new', 'c': c, 'h': h, 'obs': obs_block(obj)})
     for _ in range(rng.randint(1, 7)):
-        kind = rng.choice(['append', 'append', 'iadd', 'add', 'trim', 'indent', 'indent', 'setlines'])
+        kind = rng.choice(['append', 'append', 'iadd', 'add', 'trim', 'indent', 'indent', 'setlines', 'indentbare',
+                           'indentbare', 'setind'])
         if kind == 'append':
             c = rand_value(rng, 3)
             obj.append(to_py(c, text_gen))
@@ -271,6 +278,13 @@ def record_text_trace(rng, tid, mods, flavour):
         elif kind == 'indent':
             cfg = rand_cfg(rng)
             obj.indent(make_indentizer(text_gen, cfg))
+            events.append({'op': kind, 'cfg': cfg, 'obs': obs_block(obj)})
+        elif kind == 'indentbare':
+            obj.indent()
+            events.append({'op': kind, 'obs': obs_block(obj)})
+        elif kind == 'setind':
+            cfg = rand_cfg(rng)
+            obj.set_indentor(make_indentizer(text_gen, cfg))
             events.append({'op': kind, 'cfg': cfg, 'obs': obs_block(obj)})
         else:
             ls = [py2s(rand_text(rng, breaks=False)) for _ in range(rng.randint(0, 3))]
